@@ -116,3 +116,72 @@ pub fn run_crash_isolated(
     }
     0
 }
+
+/// Like run_crash_isolated, with extra child arguments and a per-case progress timeout (seconds):
+/// a child that makes no progress for that long is killed and the case is reported with status "timeout".
+pub fn run_crash_isolated_ex(
+    child_cmd: &str,
+    cases_path: &str,
+    events_path: &str,
+    extra: &[String],
+    timeout_s: u64,
+    on_crash: impl Fn(&Value, String) -> Value,
+) -> i32 {
+    use std::io::{BufRead, BufReader};
+    use std::process::{Command, Stdio};
+    use std::sync::mpsc;
+    let cases = read_ndjson(cases_path);
+    std::fs::write(events_path, b"").unwrap();
+    let exe = std::env::current_exe().unwrap();
+    let mut start = 0usize;
+    let mut crashes = 0usize;
+    while start < cases.len() {
+        let mut cmd = Command::new(&exe);
+        cmd.args([child_cmd, cases_path, events_path, &start.to_string()]).args(extra).stdout(Stdio::piped()).stderr(Stdio::null());
+        let mut child = cmd.spawn().expect("spawn child");
+        let rd = BufReader::new(child.stdout.take().unwrap());
+        let (tx, rx) = mpsc::channel::<Option<usize>>();
+        std::thread::spawn(move || {
+            for line in rd.lines() {
+                if let Ok(l) = line {
+                    if let Some(n) = l.strip_prefix("done ") {
+                        let _ = tx.send(n.trim().parse().ok());
+                    }
+                }
+            }
+            let _ = tx.send(None);
+        });
+        let mut last_done: Option<usize> = None;
+        let mut timed_out = false;
+        loop {
+            match rx.recv_timeout(std::time::Duration::from_secs(timeout_s)) {
+                Ok(Some(n)) => last_done = Some(n),
+                Ok(None) => break,
+                Err(mpsc::RecvTimeoutError::Timeout) => {
+                    timed_out = true;
+                    let _ = child.kill();
+                    break;
+                }
+                Err(_) => break,
+            }
+        }
+        let status = child.wait().unwrap();
+        let next = last_done.map(|d| d + 1).unwrap_or(start);
+        if !timed_out && status.success() && next >= cases.len() {
+            break;
+        }
+        if next >= cases.len() {
+            break;
+        }
+        crashes += 1;
+        let mut out = Out::append(events_path);
+        out.emit(&on_crash(&cases[next], if timed_out { "timeout".to_string() } else { format!("{status}") }));
+        out.flush();
+        start = next + 1;
+        if crashes > 20000 {
+            eprintln!("too many crashes");
+            return 3;
+        }
+    }
+    0
+}
